@@ -263,10 +263,10 @@ func TestVerifC11Proxy(t *testing.T) {
 	if want("proxy_backend_down") {
 		dead, _ := c11pFreeAddr(t)
 		addr, stop = c11pStartProxy(t, []string{dead}, true, dead)
-	// only the APIs for which the proxy builds the error reply from the request it parsed itself (Produce, Fetch) or answers
-	// locally (Metadata, FindCoordinator, ApiVersions). For the others respondBackendError hands the whole frame payload
-	// (header included) to the body decoder, whose tag loop then spins on the garbage for minutes (observation).
-	c11RunMatrix(r, c11Matrix{target: "proxy_backend_down", addr: addr, salt: 7000000, scale: 0.5, partitionZeroOnly: true, onlyKeys: map[int16]bool{0: true, 1: true, 3: true, 10: true, 18: true}, replay: replay})
+		// only the APIs for which the proxy builds the error reply from the request it parsed itself (Produce, Fetch) or answers
+		// locally (Metadata, FindCoordinator, ApiVersions). For the others respondBackendError hands the whole frame payload
+		// (header included) to the body decoder, whose tag loop then spins on the garbage for minutes (observation).
+		c11RunMatrix(r, c11Matrix{target: "proxy_backend_down", addr: addr, salt: 7000000, scale: 0.5, partitionZeroOnly: true, onlyKeys: map[int16]bool{0: true, 1: true, 3: true, 10: true, 18: true}, replay: replay})
 		stop()
 	}
 
